@@ -1963,6 +1963,7 @@ func cutSpaces(first, last *ast.Text) {
 		last.Cut.Left = lastCut
 	}
 	if first != nil {
-		first.Cut.Right = len(first.Text) - firstCut
+		// first may already be cut on the left as the last text of the previous line.
+		first.Cut.Right = min(len(first.Text)-firstCut, len(first.Text)-first.Cut.Left)
 	}
 }
